@@ -128,6 +128,68 @@ Section Dfs.
   Qed.
 End Dfs.
 
+(* ---- the fuel is enough: on a proof whose references all resolve the traversal never answers None ------ *)
+Section Fuel.
+  Variable P : proof.
+
+  (* chain lengths of the entries whose key is not yet processed *)
+  Fixpoint pending (Q : proof) (processed : list cref) : nat :=
+    match Q with
+    | [] => O
+    | (c, d) :: r => ((if memN c processed then O else length (d_chain d)) + pending r processed)%nat
+    end.
+
+  Lemma pending_mono Q processed x : (pending Q (x :: processed) <= pending Q processed)%nat.
+  Proof.
+    induction Q as [|[c d] r IH]; simpl; [lia|].
+    destruct (N.eqb c x); simpl; destruct (memN c processed); simpl; lia.
+  Qed.
+
+  Lemma pending_found Q processed c d : pfind c Q = Some d -> memN c processed = false ->
+    (pending Q (c :: processed) + length (d_chain d) <= pending Q processed)%nat.
+  Proof.
+    induction Q as [|[c' d'] r IH]; simpl; [discriminate|]. intros H Hm.
+    destruct (N.eqb_spec c c') as [<-|Hne].
+    - injection H as <-. rewrite N.eqb_refl. simpl. rewrite Hm. pose proof (pending_mono r processed c). lia.
+    - specialize (IH H Hm). destruct (N.eqb_spec c' c) as [->|_]; [contradiction|]. simpl.
+      destruct (memN c' processed); simpl; lia.
+  Qed.
+
+  Lemma pending_nil Q : pending Q [] = fold_right (fun e n => (length (d_chain (snd e)) + n)%nat) O Q.
+  Proof. induction Q as [|[c d] r IH]; simpl; [reflexivity|]. rewrite IH. reflexivity. Qed.
+
+  Definition closed_proof : Prop :=
+    forall c d, pfind c P = Some d -> forall p, In p (d_chain d) -> pfind p P <> None.
+
+  Lemma dfs_total : closed_proof -> forall fuel stack processed acc,
+    (forall c, In c stack -> pfind c P <> None) ->
+    (length stack + pending P processed <= fuel)%nat ->
+    dfs P fuel stack processed acc <> None.
+  Proof.
+    intros Hcl. induction fuel as [|fuel IH]; intros stack processed acc Hs Hf.
+    - destruct stack; simpl in *; [discriminate | lia].
+    - destruct stack as [|cur stack']; simpl; [discriminate|].
+      assert (Hs' : forall c, In c stack' -> pfind c P <> None) by (intros c Hc; apply Hs; right; exact Hc).
+      destruct (memN cur processed) eqn:Em; [apply IH; [exact Hs' | simpl in Hf; lia]|].
+      destruct (pfind cur P) as [d|] eqn:Ef; [|exfalso; apply (Hs cur (or_introl eq_refl)); exact Ef].
+      pose proof (pending_found P processed cur d Ef Em) as Hp.
+      pose proof (pending_mono P processed cur) as Hm. simpl in Hf.
+      destruct (d_type d); try (apply IH; [exact Hs' | lia]).
+      apply IH.
+      + intros c Hc. apply in_app_or in Hc. destruct Hc as [Hc|Hc]; [|exact (Hs' c Hc)].
+        apply in_rev in Hc. exact (Hcl cur d Ef c Hc).
+      + rewrite app_length, rev_length. lia.
+  Qed.
+
+  Lemma computeClauses_total undef : closed_proof -> pfind undef P <> None -> computeClauses undef P <> None.
+  Proof.
+    intros Hcl Hu. unfold computeClauses.
+    destruct (dfs P (compute_fuel P) [undef] [] []) eqn:E; [discriminate|]. exfalso.
+    apply (dfs_total Hcl (compute_fuel P) [undef] [] []); [intros c [<-|[]]; exact Hu | | exact E].
+    unfold compute_fuel. rewrite pending_nil. simpl. lia.
+  Qed.
+End Fuel.
+
 (* ---- soundness of the extraction, abstractly ---------------------------------------------------- *)
 Section Sound.
   Variable W : Type.                          (* interpretations *)
